@@ -60,8 +60,94 @@ DIRECTED = [
     ('tuple[list[int], dict[str, set[int]]]', "([1], {'a': {1}})"),
     ('list[list[list[int]]]', '[[[1], []], [], [[2, 3]]]'),
     ('Optional[TAnyBound]', '1'),
+    ('RecJson', '[[[1]], 2, []]'), ('RecList[int]', '[[1], 2]'), ('RecList[int]', '[[[1]]]'), ('RecList[str]', "[[[['a']]]]"),
     ('Union[TAnyBound, int]', "'s'"),
 ]
+
+
+# Context-dependent children: the same hint *text* used from several scopes, each of which has its own class behind
+# the relative reference 'Node'.  (wrapper source over H_ = a generated hint, builder of a conforming object from a
+# Node instance n and an object x conforming to H_)
+SCOPED_WRAPPERS = [
+    ("tuple['Node', H_]", lambda n, x: (n, x)),
+    ("tuple[H_, 'Node']", lambda n, x: (x, n)),
+    ("dict['Node', H_]", lambda n, x: {n: x}),
+    ("Union[H_, 'Node']", lambda n, x: n),
+    ("Union['Node', H_]", lambda n, x: x),
+    ("Optional['Node']", lambda n, x: n),
+    ("list['Node']", lambda n, x: [n, n]),
+    ("tuple[list['Node'], H_]", lambda n, x: ([n], x)),
+    ("dict[str, dict['Node', H_]]", lambda n, x: {'k': {n: x}}),
+    ("tuple['Node', ...]", lambda n, x: (n,)),
+    ("Mapping['Node', tuple[H_, 'Node']]", lambda n, x: {n: (x, n)}),
+]
+SCOPE_TEMPLATE = '''
+def scope_{k}(H_, build, x, conf, draw, armed):
+    class Node:
+        pass
+    hint = {wrapper}
+    obj = build(Node(), x)
+    out = []
+    try:
+        @beartype(conf=conf)
+        def f(a: {wrapper}) -> {wrapper}:
+            return a
+    except Exception as e:
+        out.append(('decoration', e))
+        f = None
+    with armed(draw):
+        try:
+            if is_bearable(obj, hint, conf=conf) is not True:
+                out.append(('is_bearable', False))
+        except Exception as e:
+            out.append(('is_bearable', e))
+        try:
+            die_if_unbearable(obj, hint, conf=conf)
+        except Exception as e:
+            out.append(('die_if_unbearable', e))
+        if f is not None:
+            try:
+                if f(obj) is not obj:
+                    out.append(('call', 'not-identity'))
+            except Exception as e:
+                out.append(('call', e))
+    return out
+'''
+
+
+def scoped_case(W, idx, rng, node, x, cs):
+    """Same hint text from 2-3 successive scopes with their own `Node`; every scope must accept its own object."""
+    from beartype import beartype
+    from beartype.door import die_if_unbearable, is_bearable
+    wsrc, build = SCOPED_WRAPPERS[rng.randrange(len(SCOPED_WRAPPERS))]
+    nscopes = rng.choice((2, 2, 3))
+    env = dict(hints.env())
+    env.update(beartype=beartype, is_bearable=is_bearable, die_if_unbearable=die_if_unbearable)
+    for k in range(nscopes):
+        exec(SCOPE_TEMPLATE.format(k=k, wrapper=wsrc), env)
+    H = node.hint()
+    W.evaluate(('scoped', wsrc, node.src, cs.key()))
+    W.add('scoped_wrappers', wsrc)
+    for k in range(nscopes):
+        r = rng.getrandbits(32)
+        try:
+            out = env[f'scope_{k}'](H, build, x, cs.conf(), r, draws.armed)
+        except TypeError:
+            W.count('scoped_unbuildable')     # x unhashable where a key is needed, ...
+            return
+        W.count('scoped_scopes')
+        W.count('checks', 3)
+        for ep, e in out:
+            if isinstance(e, BeartypeDecorHintPepUnsupportedException):
+                W.count('hints_declared_unsupported')
+                return
+            kind = 'rejected' if e is False or type(e).__name__.endswith('Violation') else (
+                e if isinstance(e, str) else 'raise:' + type(e).__name__)
+            W.violation(f'false-alarm:scoped-reference:{ep}:{kind}',
+                        f'scope {k} of {nscopes}: {ep} did not accept the conforming object of its own scope: '
+                        f'hint={wsrc} with H_={node.src} conf={cs!r} -> {short(engine.strip_ansi(str(e)), 300)}',
+                        'rand', idx, dict(wrapper=wsrc, hint=node.src, conf=cs.kw, scope=k, draw=r))
+            return
 
 
 def check_case(W, stream, idx, node_src, hint, fullfn, objs, cs, rng, kinds, draw_cap, nontrivial=True):
@@ -132,7 +218,7 @@ def main():
             hint = eval(hsrc, env)
             x = eval(osrc, env)
             for cs in (engine.ConfSpec(), engine.ConfSpec(is_random=False), engine.ConfSpec(strategy='On')):
-                check_case(W, 'directed', i, hsrc, hint, None, [x], cs, rng, ['directed'], draw_cap)
+                check_case(W, 'directed', i, hsrc, hint, None, [x], cs, rng, ['directed:' + hsrc + ' <- ' + osrc], draw_cap)
             W.count('directed_cases')
 
     # ---- random cases ----------------------------------------------------------
@@ -177,8 +263,11 @@ def main():
             pass
         check_case(W, 'rand', idx, node.src, node.hint(), None, objs, cs, rng, kinds, draw_cap,
                    nontrivial=(node.depth() >= 2 or node.kind != 'class'))
+        if rng.random() < .2 and cs.kw.get('strategy') != 'O0':
+            scoped_case(W, idx, rng, node, objs[0], cs)
 
     W.need('checks', 2000)
+    W.need('scoped_scopes', 60)
     W.need('draws_served', 100)
     for ep in engine.ENTRY_POINTS:
         W.need('ep.' + ep, 100)
